@@ -20,6 +20,7 @@ Python opcode.py structures
 """
 
 from copy import deepcopy
+from functools import partial
 from typing import Dict, List, Set
 
 from xdis import wordcode
@@ -116,7 +117,10 @@ def init_opdata(loc, from_mod, version_tuple=None, is_pypy=False):
     loc["is_pypy"] = is_pypy
     loc["cmp_op"] = cmp_op
     loc["HAVE_ARGUMENT"] = HAVE_ARGUMENT
-    loc["findlinestarts"] = findlinestarts
+    if version_tuple is None:
+        loc["findlinestarts"] = findlinestarts
+    else:
+        loc["findlinestarts"] = partial(findlinestarts, version_tuple=version_tuple)
     if version_tuple is None or version_tuple <= (3, 5):
         loc["findlabels"] = findlabels
         loc["get_jump_targets"] = findlabels
